@@ -58,7 +58,10 @@ def main(tier):
             if not rr.violated:
                 rep.machinery(f"vacuity: deviation {br}/{em} not refuted")
         out = os.path.join(scratch, "sess.ndjson")
-        g = tlc.run("SessionGen", dict(spec="Spec", constants=dict(MaxLen=L, BackwardReads="ctx", ElementsMode="extend"), invariants=["Collect"], postcondition="Export"),
+        # the export runs on one worker and grows quadratically with the number of histories: length 3 in the quick tier
+        # (the fixed histories of length 4 get their expected states from SessionTrace below)
+        LG = L - 1 if tier == "quick" else L
+        g = tlc.run("SessionGen", dict(spec="Spec", constants=dict(MaxLen=LG, BackwardReads="ctx", ElementsMode="extend"), invariants=["Collect"], postcondition="Export"),
                     workers=1, env={"OUT_FILE": out}, scratch=scratch, timeout=3000)
         if not os.path.exists(out):
             rep.machinery("SessionGen export failed: " + (g.error or "")[:500])
@@ -67,7 +70,7 @@ def main(tier):
         trans += g.generated
         recs = tlc.read_ndjson(out)
         model = {key(rr["hist"]): rr for rr in recs}
-        full = [rr for rr in recs if len(rr["hist"]) == L]
+        full = [rr for rr in recs if len(rr["hist"]) == LG]
         interesting = [rr for rr in full if any(a["op"] == "bwd" for a in rr["hist"]) or len({session_driver.JOBS[a["job"]]["dict"] for a in rr["hist"] if a["op"] == "fwd"}) < len([a for a in rr["hist"] if a["op"] == "fwd"])]
         n = 60 if tier == "quick" else 900
         must_keys = [
@@ -86,8 +89,32 @@ def main(tier):
             [["fwd", "h2oA"], ["fwd", "farI"], ["fwd", "mdF"], ["fwd", "farI"]],
             [["fwd", "uhfJ"], ["fwd", "tight"], ["bwd", ["tight"]], ["fwd", "h2oA"]],       # a call refused inside the solver leaves no trace (grad mode, class state)
             [["fwd", "h2oA"], ["fwd", "uhfJ"], ["fwd", "h2oA"], ["fwd", "loose"]],
+            [["fwd", "mdF"], ["fwd", "uhfsK"], ["fwd", "mdL1"], ["fwd", "uhfsK"]],          # seeding events before an unrestricted singlet
+            [["fwd", "mdL1"], ["fwd", "mdL2"], ["fwd", "mdL1"], ["fwd", "h2oA"]],           # one MD driver object, different runs
+            [["fwd", "mdL2"], ["fwd", "mdL1"], ["fwd", "mdL2"], ["fwd", "uhfsK"]],
         ]
-        must = [model[json.dumps(k)] for k in must_keys if json.dumps(k) in model]
+        # expected hidden states of the fixed histories: walked through the model by TLC (SessionTrace)
+        mt = [{"id": "m%03d" % mi, "hist": [{"op": a[0], "job": a[1] if a[0] == "fwd" else "-", "jobs": [] if a[0] == "fwd" else list(a[1])} for a in k]} for mi, k in enumerate(must_keys)]
+        mpath = os.path.join(scratch, "must.ndjson")
+        tlc.write_ndjson(mpath, mt)
+        tm = tlc.run("SessionTrace", dict(spec="TSpec", constants=dict(MaxLen=10, BackwardReads="ctx", ElementsMode="extend"), constraint="Track", postcondition="Post"), workers=1, env={"TRACE_FILE": mpath}, scratch=scratch, timeout=900)
+        if tm.error:
+            rep.machinery("SessionTrace: " + tm.error[:500])
+        states += tm.distinct
+        trans += tm.generated
+        walked = {}
+        for ln in tm.stdout.splitlines():
+            if ln.startswith('"{'):
+                v = json.loads(json.loads(ln))
+                walked[v["id"]] = v["recs"]
+        for tr in mt:
+            rs = walked.get(tr["id"], [])
+            if len(rs) != len(tr["hist"]):
+                rep.machinery(f"SessionTrace walked {len(rs)} of {len(tr['hist'])} actions of a fixed history: {tr['hist']}")
+                continue
+            for plen in range(1, len(tr["hist"]) + 1):
+                model[key(tr["hist"][:plen])] = dict(rs[plen - 1], hist=tr["hist"][:plen])
+        must = [model[key(tr["hist"])] for tr in mt if key(tr["hist"]) in model]
         pick = must + common_sample(rng, [h for h in interesting if h not in must], n * 2 // 3) + common_sample(rng, full, n // 3)
         cases = [{"id": "h%04d" % i, "hist": h["hist"], "workdir": os.path.join(scratch, "w%04d" % i)} for i, h in enumerate(pick)]
         # references: each job first in a fresh process (+ its own backward)
@@ -97,7 +124,7 @@ def main(tier):
             if session_driver.JOBS[j].get("out") == "gap":
                 hist.append({"op": "bwd", "job": "-", "jobs": [j]})
             refcases.append({"id": "ref_" + j, "hist": hist, "workdir": os.path.join(scratch, "ref_" + j)})
-        thr = [{"id": "thr%d" % t, "hist": [{"op": "fwd", "job": "h2oA", "jobs": []}, {"op": "fwd", "job": "cisC", "jobs": []}], "threads": t, "workdir": os.path.join(scratch, "thr%d" % t)} for t in (1, 2, 4, 16)]
+        thr = [{"id": "thr%d" % t, "hist": [{"op": "fwd", "job": "h2oA", "jobs": []}, {"op": "fwd", "job": "cisC", "jobs": []}, {"op": "fwd", "job": "benzM", "jobs": []}], "threads": t, "workdir": os.path.join(scratch, "thr%d" % t)} for t in (1, 2, 4, 8, 16)]
         allres = common.run_forked(refcases + thr + cases, session_driver.replay, timeout=1200)
         refres, thrres, res = allres[: len(refcases)], allres[len(refcases) : len(refcases) + len(thr)], allres[len(refcases) + len(thr) :]
         ref = {}
@@ -186,7 +213,7 @@ def main(tier):
             "rule": "histories of length L exported from TLC (SessionGen); non-trivial = at least two different jobs; sampled by VERIF_SEED with four fixed histories (tight/loose summed backward, dict reuse with a new element, failed call then reuse, MD/CIS/UHF chain)",
             "exhaustive": False,
         }
-        return rep.finish(cov, assumptions=["job pool of 13 heterogeneous jobs on small molecules; intra-op threads set to 1 for bitwise comparison",
+        return rep.finish(cov, assumptions=["job pool of 16 heterogeneous jobs on small molecules; intra-op threads set to 1 for bitwise comparison",
                                             "shared mutable default dicts (learned_parameters=dict()) are observed to accumulate keys; they are overwritten before being read (checked through the result comparison), not modelled as hidden state",
                                             "one driver object per settings dict, re-used across the calls of a history while the dict's element list and the job's declared settings are unchanged"])
     finally:
